@@ -20,11 +20,28 @@ static unsigned long long answers;
 static int apos, nbits;
 static int next_bit(void) { int b = apos < nbits ? (int)((answers >> apos) & 1) : 0; apos++; return b; }
 static char ev;
+#if D_SEQ > 0
+static int seq_expect, seq_started[D_SEQ + 1]; static const char *seq_bad;
+static int seq_num(const char *s) {
+  if (s && (s[0] == 'q' || s[0] == 'Q') && s[1] >= '0' && s[1] <= '9' && s[2] >= '0' && s[2] <= '9' && s[3] == 0) return (s[1] - '0') * 10 + (s[2] - '0');
+  return 0;
+}
+static int seq_visit(int n, int kind) {
+  if (n < 1 || n > D_SEQ || d_seq_kind[n] != kind) { seq_bad = "a callback was invoked for an element of the wrong kind / an unknown element"; return 0; }
+  if (seq_expect == 0) { if (!d_seq_entry[n]) seq_bad = "a handler block did not start with its first executable element"; seq_started[n]++; }
+  else if (n != seq_expect) seq_bad = "executable content did not run in document order / an <if> chain did not test its own conditions in order";
+  return 1;
+}
+#define SEQ_PLAIN(str) do { int n_ = seq_num(str); if (n_) { if (seq_visit(n_, 1)) seq_expect = d_seq_next[n_]; return 0; } } while (0)
+#else
+#define SEQ_PLAIN(str) do { } while (0)
+#endif
 /* answers of the current selection pass, per transition (for the spec function of spec_step.h); a transition that was
    not asked counts as "would have matched / held" so that a pass that wrongly skips it shows */
 static int ans_m[D_T + 1], ans_c[D_T + 1], asked_c[D_T + 1];
 static void new_pass(void) { for (int t = 0; t <= D_T; t++) { ans_m[t] = 1; ans_c[t] = 1; asked_c[t] = 0; } }
-static void *cb_deq_int(const uscxml_ctx *c) { new_pass(); return next_bit() ? &ev : 0; }
+static int int_last_null; static const char *order_bad;
+static void *cb_deq_int(const uscxml_ctx *c) { new_pass(); int b = next_bit(); int_last_null = !b; return b ? &ev : 0; }
 static void *cb_deq_ext(const uscxml_ctx *c) { new_pass(); return next_bit() ? &ev : 0; }
 static int cb_is_matched(const uscxml_ctx *c, const uscxml_transition *t, const void *e) {
   int b = next_bit();
@@ -33,6 +50,9 @@ static int cb_is_matched(const uscxml_ctx *c, const uscxml_transition *t, const 
   return b;
 }
 static int cb_is_true(const uscxml_ctx *c, const char *e) {
+#if D_SEQ > 0
+  { int n_ = seq_num(e); if (n_) { int a_ = next_bit(); if (seq_visit(n_, 2)) seq_expect = a_ ? d_seq_true[n_] : d_seq_false[n_]; return a_; } }
+#endif
   int ci = e ? sps_cond_index(e) : -1;
   if (ci < 0) return next_bit();
   if (!asked_c[ci]) { ans_c[ci] = next_bit(); asked_c[ci] = 1; }
@@ -51,6 +71,7 @@ static const char *log_bad;
 static int log_phase, log_last;
 /* ORDER_LOG convention: X<nn> / E<nn> / T<kk> (see engines/genc/harness_doc.c) */
 static int cb_log(const uscxml_ctx *c, const char *l, const char *e) {
+  SEQ_PLAIN(e);
 #if D_ORDER_LOG
   if (e && (e[0] == 'X' || e[0] == 'E' || e[0] == 'T') && e[1] && e[2]) {
     int n = (e[1] - '0') * 10 + (e[2] - '0');
@@ -68,14 +89,17 @@ static int cb_log(const uscxml_ctx *c, const char *l, const char *e) {
 #endif
   return 0;
 }
-static int cb_raise(const uscxml_ctx *c, const char *e) { return 0; }
-static int cb_send(const uscxml_ctx *c, const uscxml_elem_send *s) { return 0; }
+static int cb_raise(const uscxml_ctx *c, const char *e) { SEQ_PLAIN(e); return 0; }
+static int cb_send(const uscxml_ctx *c, const uscxml_elem_send *s) { SEQ_PLAIN(s->event); return 0; }
 static int cb_fe(const uscxml_ctx *c, const uscxml_elem_foreach *f) { return USCXML_ERR_FOREACH_DONE; }
-static int cb_assign(const uscxml_ctx *c, const uscxml_elem_assign *a) { return 0; }
+static int cb_assign(const uscxml_ctx *c, const uscxml_elem_assign *a) { SEQ_PLAIN(a->location); return 0; }
 static int cb_init(const uscxml_ctx *c, const uscxml_elem_data *d) { return 0; }
-static int cb_cancel(const uscxml_ctx *c, const char *a, const char *b) { return 0; }
+static int cb_cancel(const uscxml_ctx *c, const char *a, const char *b) { SEQ_PLAIN(a); return 0; }
 static int cb_script(const uscxml_ctx *c, const char *a, const char *b) { return 0; }
-static int cb_invoke(const uscxml_ctx *c, const uscxml_state *s, const uscxml_elem_invoke *i, unsigned char u) { return 0; }
+static int cb_invoke(const uscxml_ctx *c, const uscxml_state *s, const uscxml_elem_invoke *i, unsigned char u) {
+  if (!(c->flags & USCXML_CTX_TOP_LEVEL_FINAL) && !int_last_null) order_bad = "an invocation was started / cancelled although the internal queue had not answered empty";
+  return 0;
+}
 
 static void init_ctx(uscxml_ctx *c) {
   memset(c, 0, sizeof(*c));
@@ -99,6 +123,7 @@ static int ok_state(const uscxml_ctx *c) { return legal_config(c->config) && (sk
 /* the postconditions of engines/genc/harness_doc.c that go beyond legality, evaluated natively; returns NULL or a reason */
 static const char *post_clauses(const uscxml_ctx *pre, const uscxml_ctx *c, int r, int pre_ok) {
   if (done_bad) return "raise_done_event received a pointer outside the state table";
+  if (order_bad) return order_bad;
   if (!(pre->flags & USCXML_CTX_FINISHED) && (c->flags & USCXML_CTX_FINISHED))
     for (int i = 0; i < D_N; i++) if (sp_bit(c->invocations, i)) return "a finished machine has an invocation left running";
   if ((c->flags & USCXML_CTX_TOP_LEVEL_FINAL) && !(pre->flags & USCXML_CTX_TOP_LEVEL_FINAL) && r == USCXML_ERR_OK) {
@@ -147,6 +172,19 @@ static const char *post_clauses(const uscxml_ctx *pre, const uscxml_ctx *c, int 
     }
     for (int t = 0; t < D_T; t++) if (d_tlognum[t] >= 0 && sp_bit(tl, t) != sel[t]) return "transition content did not run exactly for the selected transitions";
 #endif
+#if D_SEQ > 0
+    if (seq_bad) return seq_bad;
+    if (seq_expect != 0) return "a handler block that started did not run to its end";
+    for (int i = 1; i < D_N; i++) {
+      if (d_seq_onexit[i] && seq_started[d_seq_onexit[i]] != sp_bit(xs, i)) return "an onexit block did not run exactly once for an exited state / ran for a state that is not exited";
+      if (d_seq_onentry[i] && seq_started[d_seq_onentry[i]] != sp_bit(es, i)) return "an onentry block did not run exactly once for an entered state / ran for a state that is not entered";
+    }
+    for (int t = 0; t < D_T; t++) {
+      if (!d_seq_trans[t]) continue;
+      if (sp_proper(d_tsrc[t])) { if (seq_started[d_seq_trans[t]] != sel[t]) return "transition content did not run exactly once for a taken transition"; }
+      else if (!(seq_started[d_seq_trans[t]] == 0 || (seq_started[d_seq_trans[t]] == 1 && sp_bit(es, d_parent[d_tsrc[t]])))) return "the content of an <initial> / default history transition ran more than once or without its parent being entered";
+    }
+#endif
   after_spec:;
   }
   if (r == USCXML_ERR_OK && legal_config(c->config))
@@ -190,7 +228,11 @@ int main(int argc, char **argv) {
     int pre_ok = (pre.flags == 0) || ((pre.flags & USCXML_CTX_INITIALIZED) && !(pre.flags & USCXML_CTX_TRANSITION_FOUND) && ok_state(&pre));
     printf("pre-state flags=%d ", pre.flags); show("config", pre.config); printf(" "); show("history", pre.history); printf(" legal=%d\n", pre_ok);
     for (answers = 0; answers < (1ULL << nbits); answers++) {
-      uscxml_ctx c = pre; apos = 0; done_bad = 0; memset(done_set, 0, sizeof done_set); new_pass(); memset(xl, 0, sizeof xl); memset(el, 0, sizeof el); memset(tl, 0, sizeof tl); log_bad = 0; log_phase = 0; log_last = 0;
+      uscxml_ctx c = pre; apos = 0; done_bad = 0; memset(done_set, 0, sizeof done_set); new_pass(); int_last_null = 0; order_bad = 0; memset(xl, 0, sizeof xl); memset(el, 0, sizeof el); memset(tl, 0, sizeof tl); log_bad = 0; log_phase = 0; log_last = 0;
+#if D_SEQ > 0
+      seq_expect = 0; seq_bad = 0; memset(seq_started, 0, sizeof seq_started);
+#endif
+     
       int r = uscxml_step(&c);
       const char *why = post_clauses(&pre, &c, r, pre_ok);
       if (why) { printf("REPRODUCED answers=0x%llx ret=%d: %s; ", answers, r, why); show("config", c.config); printf(" "); show("history", c.history); printf("\n"); return 1; }
